@@ -471,6 +471,8 @@ func genC03(c *Ctx) {
 	// 3c. read cursors advanced before marshalling (a value that was decoded and inspected):
 	//     the encoding must be the one of the fresh value
 	c03Cursors(c)
+	// 3e. exotic cells through boc.Cell positions (oracle on the implementation only)
+	c03ExoticFamily(c, "c03")
 	// 3d. exploration of the types outside the model (oracle on the implementation only)
 	c03Explore(c)
 	// 4. real chain data: every message of the transactions in the testdata
